@@ -22,6 +22,7 @@ COQ_TARGETS = ["theories/Props/C04_typing.vo", "theories/Extract/TypingExtract.v
 PROPS = "C04_typing"
 BATCH_TIMEOUT_S = 120      # a whole batch of a few thousand sequences takes a second or two
 CASE_TIMEOUT_S = 10
+MAX_CRASHES = 4            # crashes / hangs of the harness after which the rest of the stream is skipped
 
 PRIMS = ["U", "I", "N", "S"]
 
@@ -252,11 +253,12 @@ def run_impl(exe, lines, args=(), timeout=BATCH_TIMEOUT_S):
     """supervised: returns one answer per line; an answer is ('ok', text) or ('crash', description, partial output)"""
     answers = []
     i = 0
+    crashes = 0
     while i < len(lines):
         chunk = lines[i:]
         try:
             p = subprocess.run([exe] + list(args), input=("\n".join(chunk) + "\n").encode(), stdout=subprocess.PIPE,
-                               stderr=subprocess.PIPE, timeout=timeout if len(chunk) > 1 else CASE_TIMEOUT_S)
+                               stderr=subprocess.PIPE, timeout=(timeout if crashes == 0 else 30) if len(chunk) > 1 else CASE_TIMEOUT_S)
             rc, out, err = p.returncode, p.stdout.decode(errors="replace"), p.stderr.decode(errors="replace")
         except subprocess.TimeoutExpired as ex:
             rc, out, err = 124, (ex.stdout or b"").decode(errors="replace"), "timeout"
@@ -285,6 +287,12 @@ def run_impl(exe, lines, args=(), timeout=BATCH_TIMEOUT_S):
         kind = "timeout" if rc == 124 else ("stack overflow" if "overflowed its stack" in err else "process died rc=%s" % rc)
         answers.append(("crash", kind + ": " + err.strip()[-160:], partial))
         i += 1
+        crashes += 1
+        if crashes >= MAX_CRASHES:
+            # the same defect over and over (e.g. a deadlock costs the whole batch time limit each time): the cases seen so far are the
+            # failing inputs; the rest of the stream is not run
+            answers += [("skipped", "")] * (len(lines) - i)
+            break
     return answers
 
 
@@ -490,6 +498,9 @@ def run_part(ck, quick=True):
     reported = 0
     for idx, line in enumerate(lines):
         ia, ma = i_ans[idx], m_ans[idx]
+        if ia[0] == "skipped":
+            cov["skipped_after_repeated_crashes"] = cov.get("skipped_after_repeated_crashes", 0) + 1
+            continue
         pv = property_violation(ia)
         diff = ia[0] == "ok" and ia[1] != ma
         if idx < len(FIXED) and ia[0] == "ok":
